@@ -27,6 +27,7 @@ func init() {
 }
 
 func runC13(w *World, r *Report) {
+	hrNormalisedPathSpelling(w, r, "R3")
 	bt := w.Fn(pkgConfig, "BuildEndpointPolicyTree")
 	if bt == nil {
 		r.Undec("R1", "BuildEndpointPolicyTree", token.NoPos, "function not found")
